@@ -1745,6 +1745,10 @@ def part_plt(ctx, h, objdir):
             ctx.violation("model and utils/symbol.c load_elf_dynsymtab disagree (%d files)" % len(set(r["madj"] + r["mrun"])),
                           p_replay_obj(c), False)
     plt_noplt_case(ctx, h, objdir, w)
+    extra = os.path.join(w, "libc10t.so")
+    open(os.path.join(w, "t.cc"), "w").write(R_B_CC % {"nb": 2})
+    sh(["g++", "-pg", "-O0", "-fPIC", "-shared", "-o", extra, "t.cc", "-ldl"], cwd=w, check=True)
+    part_elftables(ctx, h, objdir, [os.path.join(w, c[0]) for c in cases[:ctx.n(4, 30)]] + [extra, os.path.join(w, "noplt"), os.path.join(w, "noplt_pie")])
     # recordings: every call through a PLT slot is shown under the slot's name
     for name, exe, f, funcs, pie in recs_todo:
         d = os.path.join(w, "data-" + name)
@@ -1875,6 +1879,93 @@ def plt_noplt_case(ctx, h, objdir, w):
                 {"part": "P", "exe": exe, "source": P_NOPLT_SRC, "flags": fl, "expected_relative": {k: "%x" % v for k, v in truth.items()},
                  "module_table_P": [["%x" % a, n.decode()] for a, sz, t, n in tmod if t == "P"],
                  "recorded_sym_P": [["%x" % a, n.decode()] for a, sz, t, n in trec if t == "P"], "replay": rout[-1500:]}, True)
+
+
+
+def elf_syms(path):
+    """(.symtab entries, .dynsym entries) in file order: (value, size, type, bind, shndx, name)"""
+    _, out, _ = sh(["readelf", "-sW", path], check=True)
+    T = {"NOTYPE": 0, "OBJECT": 1, "FUNC": 2, "SECTION": 3, "FILE": 4, "COMMON": 5, "TLS": 6, "IFUNC": 10}
+    B = {"LOCAL": 0, "GLOBAL": 1, "WEAK": 2, "UNIQUE": 10}
+    tabs, cur = {}, None
+    for l in out.splitlines():
+        if l.startswith("Symbol table '"):
+            cur = l.split("'")[1]
+            tabs[cur] = []
+            continue
+        k = l.split()
+        if cur and len(k) >= 7 and k[0].endswith(":") and k[0][:-1].isdigit():
+            size = int(k[2], 16) if k[2].startswith("0x") else int(k[2])
+            ndx = 0 if k[6] == "UND" else (0xfff1 if k[6] == "ABS" else (0xfff2 if k[6] == "COM" else int(k[6])))
+            name = k[7].split("@")[0] if len(k) > 7 else ""
+            tabs[cur].append((int(k[1], 16), size, T.get(k[3], 99), B.get(k[4], 99), ndx, name))
+    return tabs.get(".symtab", []), tabs.get(".dynsym", [])
+
+
+def elf_file_facts(path):
+    import re
+    f = p_elf_facts(path)
+    st, dyn = elf_syms(path)
+    _, out, _ = sh(["readelf", "-SW", path], check=True)
+    m = re.search(r"\]\s+\.rela\.dyn\s+\S+\s+([0-9a-f]{16})", out)
+    reladyn = int(m.group(1), 16) if m else 0
+    _, out, _ = sh(["readelf", "-rW", path], check=True)
+    dynidx = {}
+    gd, on, idx = [], False, 0
+    for l in out.splitlines():
+        if l.startswith("Relocation section"):
+            on = "'.rela.dyn'" in l
+            idx = 0
+            continue
+        k = l.split()
+        if on and len(k) >= 3 and len(k[0]) == 16 and k[0] != "Offset":
+            if "GLOB_DAT" in k[2]:
+                si = int(k[1], 16) >> 32
+                if si and si < len(dyn) and dyn[si][2] in (2, 10) and dyn[si][4] == 0:
+                    gd.append((idx, dyn[si][5]))
+            idx += 1
+    f.update({"symtab": st, "dynsym": dyn, "reladyn": reladyn, "globdat": gd})
+    return f
+
+
+def cesyms(l):
+    return "[" + "; ".join("mkESym %d %d %d %d %d %s" % (v, sz, t, b, x, cstr(n)) for v, sz, t, b, x, n in l) + "]"
+
+
+def celffile(f):
+    return "mkElf %d %s %s (%s) %d [%s]" % (f["vaddr0"], cesyms(f["symtab"]), cesyms(f["dynsym"]), celfplt(f), f["reladyn"],
+                                           "; ".join("(%d, %s)" % (i, cstr(n)) for i, n in f["globdat"]))
+
+
+def part_elftables(ctx, h, objdir, files):
+    """the whole module table (ELF .symtab + PLT + GOT pseudo symbols, merged, renamed by .dynsym): model vs
+    load_module_symtab, and the checker on the implementation's table"""
+    cases = []
+    for path in files:
+        f = elf_file_facts(path)
+        tmod, _ = parse_tab(h.run(["ELFMOD %s" % path]))
+        cases.append((path, f, tmod))
+        alias = len(set(v for v, sz, t, b, x, n in f["symtab"] if x and sz and t in (1, 2, 10))) < \
+            len([1 for v, sz, t, b, x, n in f["symtab"] if x and sz and t in (1, 2, 10)])
+        ctx.case(key=("T", os.path.basename(path), len(f["symtab"]), f["vaddr0"]), nontrivial=True, size=len(f["symtab"]),
+                 tags=["T:elf-module-table", "T:aliases" if alias else "T:no-aliases", "T:pie/so" if f["vaddr0"] == 0 else "T:non-pie",
+                       "T:got-pseudo-syms" if f["globdat"] else "T:no-got-syms"])
+    defs = "Definition tc : list (elffile * symtab) := [\n%s\n].\n" % ";\n".join("(%s, %s)" % (celffile(f), ctab(t)) for _, f, t in cases)
+    res = coq.run_cases(ctx, "cases_t", PRE, defs, [
+        ("m", "bad_indices (fun c => tab_eqb (module_table (fst c)) (snd c)) tc 0"),
+        ("v", "bad_indices (fun c => ok_module_table (fst c) (snd c)) tc 0")], timeout=600)
+    if res is None:
+        return
+    m, v = coq.parse_nat_list(res["m"]), coq.parse_nat_list(res["v"])
+    for i in v[:2]:
+        path, f, tmod = cases[i]
+        ctx.violation("the module table built from an ELF file misses a function/object symbol at (st_value - module base) or holds an "
+                      "address twice", {"part": "T", "file": os.path.basename(path), "vaddr0": "%x" % f["vaddr0"],
+                                        "table": [["%x" % a, sz, t, n.decode("latin1")] for a, sz, t, n in tmod][:60]}, True)
+    if m and not v:
+        path, f, tmod = cases[m[0]]
+        ctx.violation("model module_table and load_module_symtab disagree (%d files)" % len(m),
+                      {"part": "T", "file": os.path.basename(path), "impl_table": [["%x" % a, sz, t, n.decode("latin1")] for a, sz, t, n in tmod][:80]}, False)
 
 
 def p_replay_obj(c):
